@@ -21,7 +21,7 @@ ASSUMPTIONS = [
 ]
 
 KIND_OPS = ["const", "query", "add", "alias", "lowest", "draw", "accumulate", "pool", "pool_index", "pool_slice", "matmul_p",
-            "flatten", "roller", "annotate", "setitem", "delitem", "rejected", "query", "query", "query", "select", "shorthand", "shorthand", "retype", "retype", "draw"]
+            "flatten", "roller", "annotate", "setitem", "delitem", "rejected", "query", "query", "query", "select", "shorthand", "shorthand", "retype", "retype", "draw", "pool_twin", "pool_twin"]
 
 
 def gen_cases(rng, tier):
@@ -38,6 +38,8 @@ def gen_cases(rng, tier):
                 ops.append(["draw", r[0], r[1], rng.choice([1, 1, 2, 5, -1, 0, -2]), rng.choice([None, None, 8, -8]), rng.choice([0, 0, 5])])
             elif k == "retype":
                 ops.append(["retype", r[0], rng.choice(["float", "Fraction", "bool"])])
+            elif k == "pool_twin":
+                ops.append(["pool_twin", r[0], rng.choice(["float", "Fraction", "scale2", "scale3"])])
             elif k == "matmul_p":
                 ops.append(["matmul_p", rng.choice([0, 1, 2, -1]), r[0]])
             elif k == "pool":
@@ -97,7 +99,17 @@ def impl_run(case):
         try:
             if k == "const":
                 rop = ["const", op[1]]
-                res = ("H", H(gens.py_hist_dict(op[1])))
+                d = gens.py_hist_dict(op[1])
+                res = ("H", H(d))
+                idx = add(res[0], res[1])
+                # the caller goes on using ITS dict (a running tally): the histogram built from it is a value
+                d[10 ** 6 + step] = 5
+                for key in list(d)[:1]:
+                    d[key] += 7
+                resolved.append(rop)
+                results.append({"ok": idx})
+                check(step)
+                continue
             elif k == "shorthand":
                 import numpy
                 n = op[1]
@@ -106,6 +118,31 @@ def impl_run(case):
                 items = [[gens.q(i), 1] for i in (range(1, n + 1) if n > 0 else range(n, 0))]
                 rop = ["const", items]
                 res = ("H", H(v))
+            elif k == "pool_twin":
+                # a pool whose dice are equal, one by one, to those of an existing pool but differ in scale or type
+                pi = pick("P", op[1])
+                if pi is None:
+                    continue
+                p0 = pop[pi][1]
+                if any(Fraction(o).denominator != 1 for d0 in p0 for o in d0):
+                    continue
+                conv = {"float": float, "Fraction": Fraction}.get(op[2], lambda o: o)
+                kk = {"scale2": 2, "scale3": 3}.get(op[2], 1)
+                dice = [H({conv(o): c * kk for o, c in d0.items()}) for d0 in p0]
+                ids = []
+                for d1 in dice:
+                    ids.append(add("H", d1))
+                    resolved.append(["const", [[qv(o), c] for o, c in d1.items()]])
+                    results.append({"ok": ids[-1]})
+                rop = ["pool", ids]
+                res = ("P", P(*dice))
+                idx = add(res[0], res[1])
+                resolved.append(rop)
+                results.append({"ok": idx})
+                # comparing is a query: neither operand changes, whichever side it is on
+                p0 == res[1], res[1] == p0, p0 != res[1], res[1] in [p0], [p0, res[1]].index(res[1])
+                check(step)
+                continue
             elif k == "retype":
                 # the same items with outcomes of another numeric type: a new object that compares equal
                 a = pick("H", op[1])
@@ -270,6 +307,11 @@ def impl_run(case):
                         for y in hs:
                             x == y, x != y
                     len({x for x in hs}), {x: 1 for x in hs}
+                    ps = [o for kk, o, _ in pop if kk == "P"]
+                    for x in ps:
+                        for y in ps:
+                            x == y, x != y
+                    ps.index(ps[-1]) if ps else None, (ps[-1] in ps[:-1]) if ps else None
                     if hs:
                         P(*hs[:4]).is_homogeneous(), repr(P(*hs[:4]))
                 elif q == "hash":
